@@ -75,6 +75,131 @@ harness("dirent_root_name", props=["C16"], tier="thorough", timeout=3600, mem=16
         what="root entry with an arbitrary 10-character ASCII name: strict accepts iff the name is exactly 'Root Entry'; permissive accepts and exposes 'Root Entry'",
         bounds="10 symbolic printable ASCII characters", functions=DIRENT_F, assumes=[])
 
+# ---------------------------------------------------------------- header / validators / chain walk
+HDR_F = ["Header::read_from", "Header::write_to", "Version::from_number"]
+harness("hdr_parse_total", props=["C05", "C16", "C04"], tier="thorough", timeout=5400, mem=40,
+        what="Header::read_from on 512 fully symbolic bytes in both modes: never panics; acceptance per mode equals MS-CFB 2.2 (+ tolerated v3 directory-sector count); strict Ok => permissive Ok with identical fields; every field equals the independent little-endian decoding; DIFAT array read up to the first FREE",
+        bounds="all 2^4096 headers", functions=HDR_F, assumes=[])
+harness("hdr_roundtrip", props=["C03", "C02", "C17"], timeout=600, mem=8,
+        what="Header::write_to with arbitrary field values produces a valid MS-CFB header with every field at its offset and zero reserved fields",
+        bounds="all field values, two symbolic DIFAT entries", functions=HDR_F, assumes=[])
+harness("alloc_validate_rel", props=["C16", "C05", "C04"], timeout=900, mem=8,
+        what="Allocator::validate in both modes on the same arbitrary 4-cell FAT whose FAT sector carries an arbitrary (unmarked) cell: permissive accepts exactly the FATs that are valid after the documented repair, strict additionally requires the marker, strict Ok => permissive Ok with identical tables; free list = FREE cells",
+        bounds="FAT of 4 fully symbolic u32 cells (links into the FAT sector itself excluded)", functions=["Allocator::validate"], assumes=[])
+harness("chain_new_total", props=["C05", "C11", "C04"], timeout=600, mem=6, unwind_is_property=True,
+        what="Chain::new from ANY start sector over ANY FAT accepted by the validator: terminates within n+1 steps (unwinding assertion), never panics; an Ok chain starts at start and has length n*512",
+        bounds="FAT of 4 cells, 3 symbolic; start: all u32", functions=["Chain::new", "Allocator::next"], assumes=[])
+
+# ---------------------------------------------------------------- directory tree steps (generated shape instances)
+DIR_F = ["Directory::remove_dir_entry", "Directory::insert_dir_entry", "Directory::stream_id_for_name_chain",
+         "Directory::allocate_dir_entry", "Directory::free_dir_entry", "Directory::write_dir_entry",
+         "Directory::seek_within_dir_entry", "path::compare_names", "DirEntry::write_to", "DirEntry::new", "Chain::new", "Chain::write"]
+_quick_dir = set(shapes.interesting_quick())
+for c in shapes.cases():
+    kind = c["kind"]
+    if kind == "remove":
+        props = ["C01", "C07", "C03", "C02", "C04", "C15"]
+        what = "remove_dir_entry of slot %d (addressed by the other letter case) from the sibling tree shape #%s: removed slot blank and unallocated, EVERY surviving entry keeps its slot, content and reachability, no two adjacent reds, all directory slots written through" % (c["victim"], c["name"])
+    elif kind == "insert":
+        props = ["C01", "C07", "C03", "C02", "C15", "C17"]
+        what = "insert_dir_entry of a new %s at gap '%s': first unallocated slot reused, entry stored verbatim and empty (storage: both times = one clock reading; stream: no times/CLSID), reachable, existing entries unmoved, written through" % ("storage" if c["storage"] else "stream", c["newkey"])
+    else:
+        props = ["C01", "C04", "C09"]
+        what = "stream_id_for_name_chain for every present key in both letter cases and every absent key equals the abstract map"
+    harness(c["name"], props=props, tier=("quick" if c["name"] in _quick_dir else "thorough"), timeout=1800, mem=10,
+            stubs=[FMT, STUB_UP] + ([STUB_COPY, STUB_NOW] if kind == "insert" else []),
+            what=what, bounds="%d siblings in two v3 directory sectors; tree shape, slot assignment and names concrete; colours (no adjacent reds), state bits, kinds/times symbolic" % c["n"],
+            functions=DIR_F, assumes=[A_SHAPE, A_UPTABLE] + ([A_NOW, A_IOCOPY] if kind == "insert" else []))
+
+# ---------------------------------------------------------------- mini allocator steps
+MINI_F = ["MiniAllocator::begin_mini_chain", "MiniAllocator::extend_mini_chain", "MiniAllocator::allocate_mini_sector",
+          "MiniAllocator::append_mini_sector", "MiniAllocator::free_mini_chain", "MiniAllocator::free_mini_chain_after",
+          "MiniAllocator::free_mini_sector", "MiniAllocator::set_minifat", "Directory::with_root_dir_entry_mut",
+          "Chain::new", "Chain::set_len", "Chain::write", "Allocator::extend_chain", "Allocator::begin_chain"]
+for (n, tier) in [("mini_begin_reuse", "quick"), ("mini_extend_reuse", "quick"), ("mini_begin_append", "quick"),
+                  ("mini_begin_full8", "thorough"), ("mini_extend_full16", "thorough"), ("mini_begin_bare", "thorough"),
+                  ("mini_begin_after_empty", "quick"), ("mini_free_tail2", "quick"), ("mini_free_all", "quick"),
+                  ("mini_free_middle", "thorough"), ("mini_free_after", "thorough"), ("mini_free_cross", "quick")]:
+    harness(n, props=["C02", "C03", "C15", "C07"], tier=tier, timeout=2400, mem=10, stubs=[FMT, STUB_COPY],
+            what="one MiniAllocator step: MiniFAT cache == image (rest FREE), header MiniFAT start/count == chain, root entry (mini stream start/length) written through, mini stream length == 64 x MiniFAT length, root chain length == ceil(length/512), injective in-range cells, both free lists == FREE cells exactly once, free (mini) sectors reused, file grows only when required, no growth when re-allocating after everything was freed",
+            bounds="5 sectors (+2 appended), <= 16 mini sectors, v3; layout concrete per instance, mini stream contents symbolic",
+            functions=MINI_F, assumes=[A_IOCOPY, A_SHAPE])
+
+# ---------------------------------------------------------------- stream storage (flat byte array contract)
+STOR_F = ["stream::read_data_from_stream", "stream::write_data_to_stream", "stream::resize_stream", "stream::zero_fill",
+          "MiniChain::new", "MiniChain::read", "MiniChain::write", "MiniChain::set_len", "MiniChain::seek",
+          "MiniAllocator::seek_within_mini_sector", "Chain::into_subsector", "Allocator::seek_within_subsector"]
+for (n, tier) in [("stor_write_mid", "quick"), ("stor_write_append", "thorough"), ("stor_write_extend", "quick"), ("stor_write_empty", "thorough"),
+                  ("stor_read_cross", "quick"), ("stor_read_clip", "thorough"), ("stor_read_all", "thorough"), ("stor_read_past", "thorough"),
+                  ("stor_resize_in_sector", "quick"), ("stor_resize_to_128", "thorough"), ("stor_resize_to_129", "quick"),
+                  ("stor_resize_shrink_64", "thorough"), ("stor_resize_shrink_63", "thorough"), ("stor_resize_to_0", "quick"),
+                  ("stor_resize_reuse", "quick"), ("stor_resize_frag", "thorough")]:
+    harness(n, props=["C01", "C03", "C08", "C07", "C02", "C06", "C12"] if "read" in n else ["C01", "C03", "C08", "C07", "C02"], tier=tier, timeout=3000, mem=12,
+            stubs=[FMT] + ([] if "read" in n else [STUB_COPY]),
+            what="real storage functions on a 100-byte stream in a (possibly fragmented) mini chain next to another stream: result, new length, placement by the 4096 cutoff, chain length == ceil(size/64), every stored byte (independent FAT/MiniFAT walk over the image) equals the flat-array model, gained bytes are zero even when reused mini sectors / slack hold arbitrary bytes, the other stream and the rest of the image untouched",
+            bounds="offset/length/new size concrete per instance at and next to the 64-byte boundary; all data bytes and slack symbolic",
+            functions=STOR_F + MINI_F, assumes=[A_SHAPE, A_IOCOPY])
+
+# ---------------------------------------------------------------- API level
+API_F = ["CompoundFile::create_stream", "CompoundFile::create_new_stream", "CompoundFile::create_storage", "CompoundFile::create_storage_all",
+         "CompoundFile::remove_stream", "CompoundFile::remove_storage", "CompoundFile::open_stream", "CompoundFile::entry",
+         "CompoundFile::set_state_bits", "CompoundFile::set_storage_clsid", "path::name_chain_from_path", "path::validate_name"]
+harness("api_invalid_names", props=["C09", "C10"], timeout=3000, mem=12, stubs=[FMT, STUB_UP],
+        what="create_stream/create_storage/create_new_stream/create_storage_all with a forbidden character or a 32-unit name: InvalidInput, image and caches bit-identical afterwards",
+        bounds="5 concrete invalid paths on a 3-entry file with symbolic contents/metadata", functions=API_F, assumes=[A_SHAPE, A_UPTABLE])
+for n in ["api_ref_new_stream_exists", "api_ref_storage_on_stream", "api_ref_stream_on_storage", "api_ref_parent_missing",
+          "api_ref_parent_is_stream", "api_ref_remove_storage_on_stream", "api_ref_remove_stream_on_storage", "api_ref_remove_root",
+          "api_ref_remove_missing", "api_ref_open_storage", "api_ref_escape_root", "api_ref_clsid_on_stream", "api_ref_state_missing"]:
+    harness(n, props=["C10", "C01"], tier=("quick" if n in ("api_ref_new_stream_exists", "api_ref_parent_is_stream", "api_ref_remove_stream_on_storage") else "thorough"),
+            timeout=3000, mem=12, stubs=[FMT, STUB_UP],
+            what="a call the abstract model refuses (%s) returns exactly the model's error kind and leaves image and caches bit-identical" % n[8:],
+            bounds="concrete path on a 3-entry file with symbolic contents/metadata", functions=API_F, assumes=[A_SHAPE, A_UPTABLE])
+harness("api_setters", props=["C17", "C02", "C07", "C01"], timeout=3000, mem=12, stubs=[FMT, STUB_UP],
+        what="set_state_bits / set_storage_clsid with arbitrary values through differently spelled paths: entry() returns them exactly, the directory sector equals the old entries with exactly the set fields replaced (write-through, other entries untouched), streams keep a nil CLSID",
+        bounds="all u32 state bits, 96 symbolic CLSID bits", functions=API_F + ["Entry::new"], assumes=[A_SHAPE, A_UPTABLE])
+
+# ---------------------------------------------------------------- stream handle histories (variant buf8)
+A_MODEL = "stub: the three storage functions of stream.rs are replaced by a flat byte-array model (their contract; the real functions are checked against it by the stor_* harnesses); natively the same harness runs on the real storage"
+A_BUF8 = "overlay: STREAM_BUFFER_MIN scaled from 1024 to 8 and Vec::resize routed through an equivalent bounded loop (cache harnesses only)"
+A_UPG = "stub: Stream::minialloc (Weak::upgrade) replaced by pointer re-materialisation (the CompoundFile outlives the handle in the harness)"
+STUB_CACHE = [FMT, "read_data_from_stream", "write_data_to_stream", "resize_stream", "Stream :: minialloc"]
+CACHE_F = ["Stream::read", "Stream::fill_buf", "Stream::consume", "Stream::write", "Stream::seek", "Stream::set_len", "Stream::flush",
+           "Stream::flush_changes", "Stream::new", "FlushBuffer::flush_changes", "StreamBuffer::*"]
+for (n, tier, to) in [("cache_hist2_min", "quick", 3000), ("cache_hist2_b12", "quick", 3000), ("cache_hist3_min", "thorough", 7200),
+                      ("cache_hist3_b12", "thorough", 7200), ("cache_hist3_b32", "thorough", 7200), ("cache_hist4_min", "thorough", 14400)]:
+    harness(n, props=["C06", "C18", "C02", "C13", "C10"], tier=tier, timeout=to, mem=24, variant="buf8", fs=8192, stubs=STUB_CACHE,
+            what="k symbolically chosen calls (read n<=12, write n<=12 symbolic bytes, seek Start/Current/End, set_len<=40, flush) on a handle over a 20-byte stream, compared after every call with a byte vector + cursor (result, bytes, position, len()); final flush leaves exactly the model bytes in storage and flushes the file",
+            bounds="k = %s calls, max_buffer_size %s on the scaled 8-byte minimum" % (n[10], "0 (clamped)" if n.endswith("min") else n.split("_b")[1]),
+            functions=CACHE_F, assumes=[A_MODEL, A_BUF8, A_UPG])
+
+# ---------------------------------------------------------------- lock discipline (variant lock)
+A_LOCK = "overlay: std::sync::RwLock replaced by an instrumented single-threaded lock that asserts no guard is live on acquisition and lets try_read/try_write fail nondeterministically; thread schedules are NOT explored"
+for n in ["c14_readonly_methods", "c14_stream_ops"]:
+    harness(n, props=["C14"], timeout=3000, mem=12, variant="lock", fs=8192, stubs=[FMT, STUB_UP],
+            what="every read-only method, every iterator step (with read-only calls interleaved while the iterator is alive) and every stream operation acquires the lock only while no guard is live and releases it before returning",
+            bounds="3-entry file; one call sequence; symbolic contents/metadata", functions=["CompoundFile::*(read-only)", "Entries::next", "Entries::new", "Stream::*"],
+            assumes=[A_LOCK, A_SHAPE, A_UPTABLE])
+
+# ---------------------------------------------------------------- faults (C12 / C13)
+A_FAULT = "environment: FaultyFile - each read/write/seek/flush of the armed phase may fail (solver-chosen, budget 1)"
+harness("c12_read_fault_retry", props=["C12"], timeout=3000, mem=12, variant="buf8", fs=8192, stubs=[FMT, "Stream :: minialloc"],
+        what="second buffered read of a 100-byte stream with one read/seek fault anywhere in the refill: Ok results equal the true content; after Err the position is unchanged and the retry returns the true content",
+        bounds="8-byte window (scaled), one fault among all underlying read/seek calls of the refill", functions=CACHE_F + STOR_F, assumes=[A_FAULT, A_BUF8, A_UPG, A_SHAPE])
+harness("c13_flush_fault_retry", props=["C13"], timeout=3000, mem=12, variant="buf8", fs=8192, stubs=[FMT, STUB_COPY, "Stream :: minialloc"],
+        what="buffered 6-byte write then flush with one write/seek/flush fault anywhere: the fault surfaces as Err; a later flush that returns Ok means a fresh handle reads the bytes back",
+        bounds="one fault among all underlying write/seek/flush calls of the write-back", functions=CACHE_F + STOR_F, assumes=[A_FAULT, A_BUF8, A_UPG, A_SHAPE])
+harness("c13_free_fault_retry", props=["C13"], timeout=1800, mem=10, stubs=[FMT],
+        what="free_chain of a 3-sector chain with one write/seek fault anywhere, then a retry: the fault surfaces, nothing panics, no sector is on the free list twice and every listed sector is FREE",
+        bounds="4 sectors, one fault", functions=ALLOC_F, assumes=[A_FAULT, A_SHAPE])
+
+# ---------------------------------------------------------------- chunked transfers (C18)
+A_CHUNK = "environment: ChunkyFile - every read/write may transfer a solver-chosen short count or return Interrupted (budget 2)"
+for (n, tier) in [("chunky_init_zero", "quick"), ("chunky_init_fat", "quick"), ("chunky_dirent_roundtrip", "thorough"), ("chunky_stor_write_read", "thorough")]:
+    harness(n, props=["C18"], tier=tier, timeout=3000, mem=16, stubs=[FMT] + ([STUB_COPY] if n != "chunky_dirent_roundtrip" else []),
+            what="same assertions as the plain harness, over a backend that splits or interrupts transfers arbitrarily",
+            bounds="two short/interrupted transfers per harness", functions=["Sectors::init_sector", "SectorInit::initialize", "DirEntry::write_to", "DirEntry::read_from"] + STOR_F,
+            assumes=[A_CHUNK, A_IOCOPY])
+
 # ---------------------------------------------------------------- properties
 P("C06",
   level_text="Bounded model checking of the real Stream/StreamBuffer code: seek arithmetic decided for all 64-bit arguments from an arbitrary cache state; call histories of bounded length on a handle over the real storage layers compared with a byte vector (see bounds). The interesting inputs (i64::MIN, window boundaries) are rare points that only a solver enumerates.",
@@ -131,5 +256,17 @@ P("C11",
   level_text="Chain following on arbitrary FAT cells never panics (next()); mutating walks on states that only satisfy what permissive open checks are covered where registered.",
   level_note="See known findings for the unchecked walks.", bounds="FAT <= 4 cells", outside="larger tables")
 
-for k in list(NOT_APPLICABLE):
-    pass
+P("C12",
+  level_text="Fault injection as solver variables: the position of the failing read/seek among all underlying calls of a buffer refill is symbolic; Ok results must equal the fault-free content, retries must not return stale bytes.",
+  level_note="One fault per scenario, concrete scenario (second refill of a buffered read).", bounds="1 fault, 8-byte window, 100-byte stream", outside="pairs of faults, faults during open/walk")
+P("C13",
+  level_text="Fault injection as solver variables for write/seek/flush during write-back and during chain freeing: the error surfaces, later calls do not panic, flush Ok implies the bytes are stored.",
+  level_note="One fault per scenario.", bounds="1 fault", outside="pairs of faults; faults in directory updates")
+P("C14", level="other",
+  level_text="Sequential lock discipline decided by the solver on the real code with an instrumented lock: no acquisition while a guard of the same lock is live, guards released before returning, no try-lock that panics under contention.  Freedom from deadlock follows for a single lock with no other blocking primitive (argued on paper).",
+  level_note="Thread schedules are NOT explored by any engine in this family (Kani does not model threads); progress under real contention is outside.",
+  bounds="one call sequence over all read-only methods, iterators and stream operations", outside="real multi-threaded schedules")
+P("C18",
+  level_text="Chunking: storage/sector/codec harnesses re-run over a backend returning solver-chosen short counts and Interrupted; buffer sizes: cache histories per listed max_buffer_size against the same model.",
+  level_note="std::fs::File is not applicable (system calls cannot be executed symbolically); run-to-run determinism holds relative to the stubbed clock.",
+  bounds="2 short events per harness; listed buffer sizes", outside="std::fs::File backend; v4 sector size in the cache harness")
